@@ -731,6 +731,9 @@ func (ff *FuncFacts) edgeFacts(p, s *ssa.BasicBlock, depth int) []*Atom {
 	return ff.implied(iff.Cond, p.Succs[0] == s, depth)
 }
 
+// EdgeFacts exposes the atoms established by taking the CFG edge p→s.
+func (ff *FuncFacts) EdgeFacts(p, s *ssa.BasicBlock) []*Atom { return ff.edgeFacts(p, s, 0) }
+
 func (ff *FuncFacts) solve() {
 	fn := ff.Fn
 	n := len(fn.Blocks)
